@@ -81,6 +81,8 @@ func Generated() []Prog {
 		"def inner(a)\n  dbtp a\n  a\nend\ndef mid(q)\n  inner(q)\nend\ndef outer(r)\n  mid(r)\nend\ndef far(s)\n  outer(s)\nend\ndbtp far(1.5)\ndbtp inner(:sym)\ndbtp mid(nil)\n",
 		// multiple assignment: swap, value list, array right-hand side, splat target; parameters with defaults as targets
 		"def swap_plain\n  sa, sb = sb, sa\n  sa\nend\ndef order(first, second = nil)\n  first, second = second, first\n  second\nend\ndbtp order(1, \"s\")\ndef kwswap(ka, kb: 1)\n  ka, kb = kb, ka\n  kb\nend\ndbtp kwswap(2, kb: \"x\")\nma, mb = 1, \"s\"\ndbtp mb\nmc, md = [1.5, :q]\ndbtp mc\nme, *mf = 1, 2, 3\ndbtp mf\n",
+		// calls of configured methods with too many arguments and wrong argument types, on literals and variables
+		"sz = \"abc\"\ndbtp sz.length(1)\ndbtp sz.upcase(1, 2)\ndbtp sz.size(1, 2, 3)\nax = [1]\ndbtp ax.first(1, 2)\ndbtp ax.length(1, 2, 3)\ndbtp 1.zero?(1)\ndbtp 1.to_s(1, 2, 3)\nhx = {a: 1}\ndbtp hx.keys(1)\ndbtp hx.size(1, 2, 3)\ndbtp sz.to_s(1, 2, 3)\ndbtp sz + 1\ndbtp 1 + \"s\"\n",
 		// top-level redefinitions and re-bindings: the last definition / binding before a use wins
 		"def label\n  1\nend\nmark = 1\ndef label\n  \"s\"\nend\nmark = \"s\"\ndef label\n  2.5\nend\nmark = 2.5\ndbtp label\ndbtp mark\nlabel.upcase\nmark.upcase\n",
 		"class Gauge\n  def read\n    1\n  end\nend\nclass Gauge\n  def read\n    \"s\"\n  end\nend\ngg = Gauge.new\ndbtp gg.read\ngg.read.zork\n",
